@@ -22,4 +22,12 @@ example : ((c0.to kct).toOption.map fun c => (c.data, c.phys)) = some ([1/1000, 
 example : ∀ kind a, c0.unc = some (kind, a) → a.length = c0.data.length := by
   intro kind a h; simp only [c0, Option.some.injEq, Prod.mk.injEq] at h; obtain ⟨_, rfl⟩ := h; rfl
 
+-- powers and `value / cube`: no zero in the data, so the guards of `pow_phys` / `rdiv_num_phys` are met
+example : (∀ d ∈ c0.data, d ≠ 0) ∧ ((c0.pow (-2)).data, (c0.pow (-2)).unit.map (·.dim)) = ([1, 1/4, 1/9, 1/16], some [-2]) ∧
+    (c0.pow 3).phys = c0.phys.map (· ^ (3 : Int)) := by decide +kernel
+example : ((c0.rdiv (.num 6)).toOption.map fun c => (c.data, c.unit.map (·.dim))) = some ([6, 3, 2, 3/2], some [-1]) := by
+  decide +kernel
+example : ((c0.rdiv (.quantity [2, 4] sec)).toOption.map fun c => (c.data, c.unit.map (·.dim))) =
+    some ([2, 2, 2/3, 1], some [-1, 1]) := by decide +kernel
+
 end Ndcube.C10.Witness
